@@ -193,3 +193,40 @@ Example C13_shifting_survivors_3_4_7 :
   shifting_survivors [0;1;2] = [1] /\ shifting_survivors [0;1;2;3] = [1] /\
   shifting_survivors [0;1;2;3;4;5;6] = [1;3;5] /\ shifting_survivors [0;1] = [].
 Proof. exact shifting_survivors_3_4_7. Qed.
+
+(* Ingest-side routing.  The writer keeps one open segstore per stream id and never re-checks its org or
+   table, so an event lands under the (org, table) that owns its stream id.
+   The real stream id "<shard>-<org>-<hash(index)>" (for ANY hash function h) is injective in the org, and
+   in (org, index) up to collisions of h on the index name: *)
+Theorem C13_real_stream_id_injective : forall (h : name -> N) X t Y u,
+  sid_str h X t = sid_str h Y u -> X = Y /\ h t = h u.
+Proof. exact sid_str_inj. Qed.
+Print Assumptions C13_real_stream_id_injective.
+
+(* the model's segstore key "<org>-<index>" (index name standing for its hash) is injective on (org, index) *)
+Theorem C13_stream_key_injective : forall X t Y u,
+  stream_key X t = stream_key Y u -> X = Y /\ t = u.
+Proof. exact stream_key_inj. Qed.
+Print Assumptions C13_stream_key_injective.
+
+(* ... hence, for ALL op sequences, the routed semantics [rrun]/[routs_from] (events go to the owner of the
+   stream id, as in the code; this is what the harness compares with the implementation) coincides with the
+   direct semantics [run]/[outs_from] (Ingest X t stores under (X, t)) that all theorems above are about. *)
+Theorem C13_routing_is_direct : forall ops,
+  routs_from (init, []) ops = outs_from init ops /\ fst (rrun ops) = run ops.
+Proof. exact routing_is_direct. Qed.
+Print Assumptions C13_routing_is_direct.
+
+(* documentation of a seeded regression (seeded/C13c): org and index concatenated without a separator
+   give org 12 / "logs" and org 1 / "2logs" the same key, and the routed model then returns org 1's event
+   to org 12. *)
+Theorem C13_concat_key_refuted :
+  exists X t Y u, (X, t) <> (Y, u) /\ concat_key X t = concat_key Y u.
+Proof. exact concat_key_refuted. Qed.
+Print Assumptions C13_concat_key_refuted.
+
+Theorem C13_concat_routing_refuted :
+  exists ops X i, In i (match last (routs_with concat_key (init, []) ops) ONone with OIds l => l | _ => [] end) /\
+                  ~ ingested ops X i /\ last ops Rotate = QSearch X [108;111;103;115].
+Proof. exact concat_routing_refuted. Qed.
+Print Assumptions C13_concat_routing_refuted.
